@@ -363,7 +363,8 @@ def finalize(m, tier):
     c = m["counters"]
     return {
         "rule": "lane A: generated values of every serializable class (consensus + wire) with boundary integers; lane B: "
-                "every consensus decoder offered each mutated/random byte string; distinct = distinct byte strings by "
+                "every consensus decoder offered each mutated/random byte string (incl. lists of 64..127 and of 1000+ elements and "
+                "length prefixes announcing another count); distinct = distinct byte strings by "
                 "digest (lane A encodings + lane B strings); non-trivial = every string (lane B counts separately how "
                 "many decoded at all: B_decoded)",
         "floors": [("A_values", c.get("A_values", 0), 10000), ("B_strings", c.get("B_strings", 0), 20000),
